@@ -46,6 +46,8 @@ func scenarios() []scenarioDef {
 		{"v2-3x[G]-free{62,63}", 2, []int{62, 63}, [][]string{{"G"}, {"G"}, {"G"}}, [2]int{4, 7}, nil, nil},
 		{"v2-3x[G]-free{63,64}-two-words", 2, []int{63, 64}, [][]string{{"G"}, {"G"}, {"G"}}, [2]int{4, 7}, nil, nil},
 		{"v2-release-vs-acquire-last-id", 2, nil, [][]string{{"H5", "G"}, {"G"}, {"G"}}, [2]int{4, 7}, nil, nil},
+		{"v2-concurrent-double-release-of-5", 2, nil, [][]string{{"H5", "G"}, {"H5"}}, [2]int{-1, -1}, nil, nil},
+		{"v2-3x-release-of-5-and-get", 2, nil, [][]string{{"H5"}, {"H5"}, {"G", "C"}}, [2]int{4, 6}, nil, nil},
 		{"v2-2x[G,G,C,C]-free{126,127}", 2, []int{126, 127}, [][]string{{"G", "G", "C", "C"}, {"G", "C", "G"}}, [2]int{3, 5}, nil, nil},
 		{"v2-3x[G,C]-free{10}", 2, []int{10}, [][]string{{"G", "C"}, {"G", "C"}, {"G", "C"}}, [2]int{3, 5}, nil, nil},
 		{"v3-2x[G,C,G]-free{1,32767}", 3, []int{1, 32767}, [][]string{{"G", "C", "G"}, {"G", "C"}}, [2]int{2, 3}, nil, nil},
